@@ -10,8 +10,11 @@ pairs `<present 0|1> <value>`.
   rt <name> <runtime: D pairs>                             runtime list held after RefreshRuntime
   poddef <id> <quota> <nonPreemptible> <request: D pairs>  a pod object
   podadd <id> | res <id> | unres <id> | del <id>           OnPodAdd / Reserve / Unreserve / OnPodDelete
+  race <id>                                                Unreserve ∥ OnPodDelete of one pod, observed once both returned
   att <id> <runtimeSwitch> <checkParentSwitch>             PreFilter
   cap <D ints>                                             cluster capacity changed (no model state)
+  dflt <name>                                              <name> is koordinator-default-quota (fall-back association)
+  migrate                                                  one tick of migrateDefaultQuotaGroupsPod
 Output: `v <status code>` after `att`; after every other op one line per group sorted by name:
   `q <name> <D used> <D nonPreemptibleUsed> <D selfUsed> <D selfNonPreemptibleUsed>`.
 Anything the model does not cover (unregistered parent, a new parent inside the moved subtree, …) ⇒ `bad-op`.
@@ -79,7 +82,7 @@ def stepLine (s : DState) (line : String) : DState :=
     match nat? i with
     | some i =>
       match findP s.st.pods i with
-      | some p => if (findQ s.st.quotas p.quota).isNone then bad s else after s (podAdd s.st i)
+      | some p => if (findQ s.st.quotas (homeOf s.st p)).isNone then bad s else after s (podAdd s.st i)
       | none => bad s
     | none => bad s
   | ["att", i, rt, cp] =>
@@ -87,7 +90,9 @@ def stepLine (s : DState) (line : String) : DState :=
     | some i, some rt, some cp =>
       match findP s.st.pods i with
       | some p =>
-        if (findQ s.st.quotas p.quota).isNone then bad s else
+        -- a pod whose association moved since its PodInfo was filed (registered label, migration tick pending) is
+        -- outside the model
+        if (findQ s.st.quotas p.quota).isNone || homeOf s.st p ≠ p.quota then bad s else
         match (step s.st (.attempt i { rt := rt ≠ 0, cp := cp ≠ 0 })).2 with
         | some v => { s with out := s.out ++ [s!"v {v.code}"] }
         | none => bad s
@@ -95,17 +100,40 @@ def stepLine (s : DState) (line : String) : DState :=
     | _, _, _ => bad s
   | ["res", i] =>
     match nat? i with
-    | some i => if (findP s.st.pods i).isNone then bad s else after s (step s.st (.reserve i)).1
+    | some i =>
+      match findP s.st.pods i with
+      | none => bad s
+      | some p => if homeOf s.st p ≠ p.quota then bad s else after s (step s.st (.reserve i)).1
     | none => bad s
   | ["unres", i] =>
     match nat? i with
-    | some i => if (findP s.st.pods i).isNone then bad s else after s (step s.st (.unreserve i)).1
+    | some i =>
+      match findP s.st.pods i with
+      | none => bad s
+      | some p => if homeOf s.st p ≠ p.quota then bad s else after s (step s.st (.unreserve i)).1
+    | none => bad s
+  | ["race", i] =>
+    -- Unreserve(i) and OnPodDelete(i) issued concurrently; observed at the quiescent point.  Both serial orders give
+    -- the same state (after the delete the unreserve finds no PodInfo), so the model takes unreserve-then-delete.
+    match nat? i with
+    | some i =>
+      match findP s.st.pods i with
+      | none => bad s
+      | some p => if homeOf s.st p ≠ p.quota then bad s else after s (podDelete (unreserve s.st i) i)
     | none => bad s
   | ["del", i] =>
     match nat? i with
-    | some i => if (findP s.st.pods i).isNone then bad s else after s (step s.st (.podDelete i)).1
+    | some i =>
+      match findP s.st.pods i with
+      | none => bad s
+      | some p => if homeOf s.st p ≠ p.quota then bad s else after s (step s.st (.podDelete i)).1
     | none => bad s
   | "cap" :: _ => after s s.st
+  | ["dflt", n] =>
+    match nat? n with
+    | some n => if (findQ s.st.quotas n).isNone then bad s else after s (step s.st (.setDefault n)).1
+    | none => bad s
+  | ["migrate"] => after s (step s.st .migrate).1
   | _ => bad s
 
 def runCase (lines : List String) : List String := (lines.foldl stepLine {}).out
